@@ -129,8 +129,10 @@ def run(ctx):
     quick = ctx.quick
     ctx.mc("VecEnv_MC", "VecEnv_raise.cfg", deadlock=True,
            must_cover=["Begin", "FinishAsync", "FinishWait", "Exec", "Raise", "CloseJoin", "CloseTerminate"])
-    ctx.mc("VecEnv_MC", "VecEnv_kill.cfg", deadlock=True, must_cover=["Kill", "CloseSend", "CloseRecv", "FinishSetAttrRecv"])
-    ctx.mc("VecEnv_MC", "VecEnv_live.cfg", deadlock=True, coverage=False)
+    ctx.mc("VecEnv_MC", "VecEnv_kill.cfg" if quick else "VecEnv_killt.cfg", deadlock=True, must_cover=["Kill", "CloseSend", "CloseRecv", "FinishSetAttrRecv"])
+    ctx.mc("VecEnv_MC", "VecEnv_live.cfg" if quick else "VecEnv_livet.cfg", deadlock=True, coverage=False)
+    if not quick:
+        ctx.mc("VecEnv_MC", "VecEnv_raise3.cfg", deadlock=True, coverage=False)          # three workers
     # design-level exhibition of the recorded finding (client assumption dropped)
     r = tlc.run_tlc("VecEnv_MC", "VecEnv_retry.cfg", deadlock=True)
     ctx.extra["retry_cfg_result"] = "no deadlock" if r.ok else r.violated_name
